@@ -349,6 +349,16 @@ func (rs *runState) judge(prop string, clientFinished bool, out *core.Outcome) {
 		}
 		return v
 	}
+	// bytes the TNC had taken into its TX buffer by then (all of them, FIFO)
+	takenAt := func(at time.Duration) int {
+		v := 0
+		for _, bp := range snap.BufLog {
+			if bp.At <= at {
+				v = bp.Accepted
+			}
+		}
+		return v
+	}
 	acceptedBefore := 0
 	for _, c := range calls {
 		switch c.Op {
@@ -375,7 +385,13 @@ func (rs *runState) judge(prop string, clientFinished bool, out *core.Outcome) {
 				sim.Probe("flush-returned-nil-after-link-went-down")
 				continue
 			}
-			if outAt(c.End) >= acceptedBefore {
+			// Judged on the TNC's side, as the property puts it: everything the
+			// TNC had in its buffer when Flush was called must have left it when
+			// Flush returns. (What Write reported is not the measure: a frame the
+			// TNC refused with CRCFAULT, or one still on its way, is not in the
+			// TNC's buffer; those cases belong to the write-stream clause.)
+			need := takenAt(c.Start)
+			if outAt(c.End) >= need {
 				continue
 			}
 			// the TNC really said BUFFER 0 after the last Write began: a stale report is still a report
@@ -389,7 +405,7 @@ func (rs *runState) judge(prop string, clientFinished bool, out *core.Outcome) {
 				sim.Probe("flush-returned-on-stale-buffer-0")
 				continue
 			}
-			sim.Violate(prop, "flush", "returned-before-buffer-empty/"+tag, "Flush (step %d) returned nil at %v: Write had accepted %d bytes, only %d had left the TNC's buffer, and no BUFFER 0 report reached the host after the last Write began (%v)", c.Step, c.End, acceptedBefore, outAt(c.End), lastWriteStart)
+			sim.Violate(prop, "flush", "returned-before-buffer-empty/"+tag, "Flush (step %d, called %v) returned nil at %v: the TNC had taken %d bytes into its TX buffer before the call, only %d had left it, and no BUFFER 0 report reached the host after the last Write began (%v)", c.Step, c.Start, c.End, need, outAt(c.End), lastWriteStart)
 		}
 	}
 	// probe: a BUFFER 0 sent before the TNC saw a write's data but delivered after that Write began
